@@ -2,3 +2,4 @@ import Reduino.Driver.Host
 import Reduino.Driver.Core
 import Reduino.Driver.Tool
 import Reduino.Driver.Fw
+import Reduino.Driver.Lcd
